@@ -30,26 +30,29 @@ func (a pipeAddr) String() string  { return string(a) }
 var past = time.Unix(1, 0)
 
 type fconn struct {
-	net.Conn // the session's end of the pipe
-	id       string
-	mu       sync.Mutex
-	closes   int32
-	inWrite  int32
-	injR     bool // blocked / next Read returns errInjected
-	injW     bool // blocked / next Write returns errInjected
-	injRDL   bool // next SetReadDeadline fails
-	injWDL   bool // next SetWriteDeadline fails
-	closeErr bool // Close reports an error (after closing)
-	keepRDL  bool // a forced (past) read deadline stays
-	keepWDL  bool // a forced (past) write deadline stays
-	rdlCalls int32
-	wdlCalls int32
-	writes   int32
-	badRDL   int32 // SetReadDeadline calls whose distance from now is not the configured timeout
-	badWDL   int32
-	noWDL    int32 // Write calls not preceded by a SetWriteDeadline since the previous Write
-	wdlFresh bool
-	rt, wt   time.Duration
+	net.Conn  // the session's end of the pipe
+	id        string
+	mu        sync.Mutex
+	closes    int32
+	inWrite   int32
+	injR      bool  // blocked / next Read returns errInjected
+	injW      bool  // blocked / next Write returns errInjected
+	injRDL    bool  // next SetReadDeadline fails
+	injWDL    bool  // next SetWriteDeadline fails
+	partErr   error // armed: the next (or the blocked) Write returns (partN, partErr) once
+	partN     int
+	peerHolds func() bool
+	closeErr  bool // Close reports an error (after closing)
+	keepRDL   bool // a forced (past) read deadline stays
+	keepWDL   bool // a forced (past) write deadline stays
+	rdlCalls  int32
+	wdlCalls  int32
+	writes    int32
+	badRDL    int32 // SetReadDeadline calls whose distance from now is not the configured timeout
+	badWDL    int32
+	noWDL     int32 // Write calls not preceded by a SetWriteDeadline since the previous Write
+	wdlFresh  bool
+	rt, wt    time.Duration
 	// real write deadlines (mode wt) reach the pipe only while the peer does not read: a write to a reading peer
 	// then never depends on how fast this machine is
 	realWDL func() bool
@@ -79,13 +82,39 @@ func (c *fconn) Write(b []byte) (int, error) {
 	}
 	c.wdlFresh = false
 	inj := c.injW
+	perr, part := c.partErr, c.partN
+	c.partErr = nil // one shot: the next attempt is an ordinary Write again
 	c.mu.Unlock()
+	if perr != nil {
+		// partial write, then the error: k < len(b) bytes really reach a reading peer; none reach one that holds
+		k := part
+		if k > len(b)-1 {
+			k = len(b) - 1
+		}
+		if k <= 0 || (c.peerHolds != nil && c.peerHolds()) {
+			return 0, perr
+		}
+		n, err := c.Conn.Write(b[:k])
+		if err != nil {
+			return n, err
+		}
+		return k, perr
+	}
 	if inj {
 		return 0, errInjected
 	}
 	n, err := c.Conn.Write(b)
-	if err != nil && c.flag(&c.injW) {
-		return n, errInjected
+	if err != nil {
+		c.mu.Lock()
+		inj, perr = c.injW, c.partErr
+		c.partErr = nil
+		c.mu.Unlock()
+		if perr != nil {
+			return n, perr // a blocked Write interrupted by wpart / wtemp (nothing was taken by the peer)
+		}
+		if inj {
+			return n, errInjected
+		}
 	}
 	return n, err
 }
@@ -712,8 +741,9 @@ func (w *world) deliver() *cstate {
 	}
 	a, b := net.Pipe()
 	cs.fc = &fconn{Conn: a, id: id, rt: w.rt, wt: w.wt}
+	cs.fc.peerHolds = func() bool { cs.mu.Lock(); defer cs.mu.Unlock(); return cs.hold }
 	if w.mode == "wt" {
-		cs.fc.realWDL = func() bool { cs.mu.Lock(); defer cs.mu.Unlock(); return cs.hold }
+		cs.fc.realWDL = cs.fc.peerHolds
 	}
 	cs.peer = b
 	w.h.mu.Lock()
@@ -912,7 +942,8 @@ func (w *world) peerWrite(cs *cstate, b byte) bool {
 }
 
 func (w *world) op(f []string) string {
-	if len(f) < 2 || (f[0] == "send") != (len(f) == 3) || len(f) > 3 {
+	three := f[0] == "send" || f[0] == "wpart" || f[0] == "wtemp"
+	if len(f) < 2 || three != (len(f) == 3) || len(f) > 3 {
 		return "bad-op"
 	}
 	k, err := strconv.Atoi(f[1])
@@ -1035,11 +1066,43 @@ func (w *world) op(f []string) string {
 		cs.fc.closeErr = true
 		cs.fc.mu.Unlock()
 		w.settle(nil)
+	case "wpart", "wtemp":
+		// one Write — the one blocked right now, or else the next one — hands n bytes (fewer than it was given) to the
+		// peer and then fails: with the timeout error of an expired write deadline (wpart) or with another temporary
+		// error (wtemp). Any later Write would work again: the session must not try one.
+		if w.tcp || w.echo {
+			return "bad-op"
+		}
+		n, err := strconv.Atoi(f[2])
+		if err != nil || n < 0 || strconv.Itoa(n) != f[2] || n > 1<<20 {
+			return "bad-op"
+		}
+		fc := cs.fc
+		fc.mu.Lock()
+		already := cs.writeFault // a write fault is armed already: the first one decides
+		if !already {
+			fc.partN = n
+			if f[0] == "wpart" {
+				fc.partErr = os.ErrDeadlineExceeded
+			} else {
+				fc.partErr = tempErr{}
+			}
+		}
+		fc.mu.Unlock()
+		if !already && atomic.LoadInt32(&fc.inWrite) > 0 {
+			_ = fc.Conn.SetWriteDeadline(past) // wake the blocked Write; the session sets a fresh deadline per attempt
+		}
+		cs.writeFault = true
+		w.settle(nil)
 	case "rerr", "rto", "rdl", "werr", "wto", "wdl":
 		if w.tcp {
 			return "bad-op"
 		}
 		fc := cs.fc
+		if cs.writeFault && (f[0] == "werr" || f[0] == "wto" || f[0] == "wdl") {
+			w.settle(nil) // a write fault is armed already: the first one decides
+			break
+		}
 		fc.mu.Lock()
 		switch f[0] {
 		case "rerr":
@@ -1184,6 +1247,11 @@ func (w *world) monitorSession(k int, cs *cstate, exits, closes, loops int, got 
 	}
 	if len(why) > 0 {
 		cause := strings.Join(why, "+")
+		if exits == 0 && closes < 1 && loops > 0 {
+			// one cause, one line: the session simply did not end
+			w.hit("C16:sess:not-ended-after-terminating-event", fmt.Sprintf("session %d after %s: OnExit did not run, the connection is not closed, %d loop goroutine(s) still running", k, cause, loops))
+			return
+		}
 		if exits != 1 {
 			w.hit("C16:quit:onexit-not-once", fmt.Sprintf("session %d after %s: OnExit ran %d times", k, cause, exits))
 		}
